@@ -365,6 +365,10 @@ def run(pid, tier_, replay=None):
         return 1 if mine else 0
 
     plan = fixed_plans(pid) + PLANS[pid](pid, rng, quick)
+    for st in plan:
+        # more than 65,535 items in one batch may exceed the protocol's 16-bit parent ids: outside the domain of C01-C04
+        if st.get("mode", 0) == 0 and any(b.get("n", 0) > 65535 for b in st["batches"]):
+            st["mode"] = 2
     binp = otap.build(race=(pid == "C16"))
     if pid == "C16":
         viol, outs, nev, notes = otap.execute(plan, shards=4, timeout=1500 if quick else 7000, binp=binp,
